@@ -4,6 +4,8 @@ MODULES = {
     "C01": ["contracts.c01_grid"],
     "C02": ["contracts.c02_itk"],
     "C03": ["contracts.c03_derived"],
+    "C06": ["contracts.c06_c07_transforms"],
+    "C07": ["contracts.c06_c07_transforms"],
     "C08": ["contracts.c08_linalg"],
     "C11": ["contracts.c11_c13_flow"],
     "C12": ["contracts.c12_derivatives"],
